@@ -20,7 +20,7 @@ use crate::scn::*;
 pub fn run_scenario(sc: &Scenario) -> Observation {
     match sc.tier {
         Tier::Lib => crate::runlib::run_lib(sc),
-        Tier::Cli => crate::runcli::run_cli(sc, if sc.pretty { "pretty" } else { "json" }),
+        Tier::Cli => crate::runcli::run_cli(sc, if sc.pretty { sc.cli.renderer.as_deref().unwrap_or("pretty") } else { "json" }),
     }
 }
 
